@@ -165,7 +165,7 @@ func deferProfile(t *tape.Tape) gen.Profile {
 func init() {
 	register("C07", func() Check {
 		return &cfCheck{id: "C07",
-			cfg:    CFConfig{Prop: "C07", JudgeClean: false, Faults: true, KindsPerPos: 2, Profile: stdProfile},
+			cfg:    CFConfig{Prop: "C07", JudgeClean: false, JudgeCleanRaise: true, Faults: true, KindsPerPos: 2, Profile: stdProfile},
 			runs:   map[string]int{"quick": 40000, "thorough": 4000000},
 			budget: map[string]int{"quick": 60, "thorough": 1500},
 			rule:   "one case = (generated program, dynamic slot position k, error kind): the k-th invocation of the simulated callee raises; every position of the fault-free trace is enumerated; distinct_nontrivial counts distinct (program skeleton with slot ids erased, trace length) pairs whose model prediction was decisive",
